@@ -62,9 +62,15 @@ func TestMergeArrangements(t *testing.T) {
 		pool := gen.SeriesPool(1, 4).Draw(t, "hot-series")
 		family := make([][]*gostatsd.Metric, nmaps)
 		want := model.Agg{}
+		hugeCounters := rapid.IntRange(0, 5).Draw(t, "huge-counters") == 0
 		for i := range family {
 			family[i] = rapid.SliceOfN(gen.DatapointFrom(pool, ts), 0, 10).Draw(t, fmt.Sprintf("map%d", i))
 			for _, m := range family[i] {
+				// counters are 64-bit integers that wrap: sums whose partial sums leave the range in one order and not in
+				// another must still agree (+-2^62 increments, unsampled)
+				if m.Type == gostatsd.COUNTER && hugeCounters {
+					m.Value, m.Rate = float64(int64(1)<<62)*float64(rapid.SampledFrom([]int{1, 1, -1}).Draw(t, "huge-sign")), 1
+				}
 				want.AddMetric(m)
 			}
 		}
